@@ -127,6 +127,43 @@ StaticCase<K> gen_nested_staircase(Rng &r, size_t eps, size_t eps_rec, size_t ma
     return sc;
 }
 
+/// More than 2^24 keys: positions no longer fit a float's mantissa (the library keeps the intercept in an integer for
+/// exactly this reason). One or two such cases per class and tier; >= 32-bit keys only.
+template<class K>
+StaticCase<K> gen_huge_case(Rng &r, size_t eps) {
+    using D = UDom<K>;
+    StaticCase<K> sc;
+    sc.chunked = true;
+    sc.threads = r.pick<int>({1, 4, 16});
+    size_t n = (size_t(1) << 24) + (size_t(1) << 20) + r.below(size_t(1) << 22);
+    const uint64_t R = D::R;
+    std::vector<uint64_t> u(n);
+    int fam = int(r.below(3));
+    if (fam == 0) {
+        sc.family = "huge_uniform";
+        for (auto &x : u) x = (R == UINT64_MAX - 1) ? std::min<uint64_t>(r.next(), R) : r.below(R + 1);
+        std::sort(u.begin(), u.end());
+    } else if (fam == 1) {
+        sc.family = "huge_noisy_progression";
+        uint64_t cur = r.below(1000), maxstep = std::max<uint64_t>(1, std::min<uint64_t>(R / n, 64));
+        for (auto &x : u) { x = cur; cur = sat_add(cur, r.below(maxstep + 1), R); }
+    } else {
+        sc.family = "huge_staircase";
+        uint64_t cur = 0;
+        size_t i = 0;
+        while (i < n) {
+            size_t L = 2 * eps + r.below(4);
+            for (size_t j = 0; j <= L && i < n; ++j) { u[i++] = cur; cur = sat_add(cur, 1, R); }
+            cur = sat_add(cur, r.pick<uint64_t>({1, 2, eps + 1, 100}), R);
+        }
+    }
+    sc.keys.resize(n);
+    for (size_t i = 0; i < n; ++i) sc.keys[i] = D::to_key(u[i]);
+    size_t chunk = n / size_t(std::max(sc.threads, 1));
+    for (int i = 1; i < sc.threads; ++i) sc.seams.push_back(size_t(i) * chunk);
+    return sc;
+}
+
 template<class K>
 StaticCase<K> make_static_case(Ctx &c, size_t eps, bool chunked, size_t maxn_small, size_t maxn_big, size_t eps_rec = 0) {
     StaticCase<K> sc;
@@ -243,6 +280,7 @@ void run_static(Ctx &c, StaticCase<K> &sc, char which, Extra &extra) {
     // queries
     bool present_only = which == 'P';
     size_t cap = sc.chunked ? 12000 : 4000;
+    if (sc.keys.size() > (size_t(1) << 24)) cap = (c.prop("C07") || c.prop("C04") || c.prop("C17")) ? 20000 : 400000;
     std::vector<K> qs = sc.queries.empty() ? gen_queries(sc.keys, c.rng, cap, present_only) : sc.queries;
     if (sc.queries.empty() && !present_only) {
         for (size_t s : sc.seams) { // everything around the chunk boundaries
@@ -322,9 +360,18 @@ template<size_t EpsRec> struct PgmExtra : NoExtra {
     bool levels = false;  ///< judge level sizes (C04 / C07)
     uint64_t records = 0, max_dev = 0, max_cmp = 0;
     size_t height = 0;
+    std::vector<bool> level_sorted; ///< per level: are the non-sentinel entries sorted by key (see U3 in DESIGN.md)
 
     template<class Idx, class K> void after_build(Ctx &c, const Idx &idx, const StaticCase<K> &sc) {
         height = idx.height();
+        {
+            auto &off0 = pgm_verif::Access::levels_offsets(idx);
+            auto &segs0 = pgm_verif::Access::segments(idx);
+            level_sorted.assign(off0.size() > 0 ? off0.size() - 1 : 0, true);
+            for (size_t l = 0; l + 1 < off0.size(); ++l)
+                for (size_t i = off0[l] + 1; i + 1 < off0[l + 1]; ++i)
+                    if (segs0[i].key < segs0[i - 1].key) { level_sorted[l] = false; break; }
+        }
         if (!levels) return;
         auto &off = pgm_verif::Access::levels_offsets(idx);
         const size_t n = sc.keys.size();
@@ -350,6 +397,13 @@ template<size_t EpsRec> struct PgmExtra : NoExtra {
             if (m[l + 1] > bound)
                 c.violation("level_size_bound", J().num("level", l + 1).num("size", m[l + 1]).num("below", m[l]).num("bound", bound));
         }
+        // The top level has no level above it that could bound where the responsible segment is: whatever locates it has to
+        // look at the top level's entries themselves. With more real entries than the per-level budget, queries that belong
+        // to the last ones cannot be served within 2*eps_rec+3 inspections by a scan (the implementation uses the first
+        // top-level entry as the root without any search, so it always keeps exactly one). One entry may be the closing entry.
+        if (m[L - 1] > 2 * EpsRec + 3 + 1)
+            c.violation("top_level_exceeds_scan_budget", J().num("top_level_entries", m[L - 1]).num("budget", 2 * EpsRec + 3).num("height", L).num("segments", m[0]));
+        if (m[L - 1] > 2) c.count("cases_top_level_with_several_segments");
         // height: logarithmic. Simulate the bound until it stalls (<= 3 entries), allow 2 more levels.
         size_t u = m[0], hb = 1;
         while (u > 3 && hb < 64) {
@@ -391,11 +445,15 @@ template<size_t EpsRec> struct PgmExtra : NoExtra {
             // units of the reserved value, for the trailing closing entries (build() keys the "keys > last" entry of EVERY
             // level with last_data_key + 1, while the closing points of upper levels cascade +1 per level): there both the
             // forward-scan answer (first entry whose successor is > k) and the rightmost entry <= k are legitimate.
-            size_t t_scan = 0;
-            while (t_scan + 1 < cnt && !(k < lb[t_scan + 1].key)) ++t_scan;
-            size_t t_right = 0;
-            for (size_t i = cnt; i-- > 0;)
-                if (!(k < lb[i].key)) { t_right = i; break; }
+            size_t t_scan = 0, t_right = 0;
+            if (l < level_sorted.size() && level_sorted[l]) { // sorted level (the normal case): one binary search
+                size_t ub = size_t(std::upper_bound(lb, lb + cnt, k) - lb);
+                t_scan = t_right = ub == 0 ? 0 : ub - 1;
+            } else {
+                while (t_scan + 1 < cnt && !(k < lb[t_scan + 1].key)) ++t_scan;
+                for (size_t i = cnt; i-- > 0;)
+                    if (!(k < lb[i].key)) { t_right = i; break; }
+            }
             ++records;
             size_t tix = rec.found;
             if (rec.found != t_right) {
@@ -433,12 +491,15 @@ template<size_t EpsRec> struct PgmExtra : NoExtra {
     }
 };
 
-template<class K, size_t Eps, size_t EpsRec, class Floating, bool Chunked>
+template<class K, size_t Eps, size_t EpsRec, class Floating, int Mode> // Mode: 0 small, 1 chunked, 2 huge (> 2^24 keys)
 void pgm_case(Ctx &c) {
     using Idx = pgm::PGMIndex<K, Eps, EpsRec, Floating>;
+    constexpr bool Chunked = Mode == 1;
     size_t big = c.thorough() ? (size_t(1) << 18) : (size_t(1) << 16);
     if (c.thorough() && c.case_idx % 16 == 15) big = size_t(1) << 20;
-    auto sc = make_static_case<K>(c, Eps, Chunked, c.prop("C07") ? 20000 : 5000, big, EpsRec);
+    StaticCase<K> sc;
+    if constexpr (Mode == 2 && std::is_integral_v<K>) sc = c.given ? make_static_case<K>(c, Eps, true, 5000, big, EpsRec) : gen_huge_case<K>(c.rng, Eps);
+    else sc = make_static_case<K>(c, Eps, Chunked, c.prop("C07") ? 20000 : 5000, big, EpsRec);
     if constexpr (std::is_floating_point_v<K>) {
         if (!float_domain_ok<K, Floating>(sc.keys)) {
             c.count("float_domain_rejected");
@@ -460,8 +521,11 @@ void pgm_case(Ctx &c) {
 
 #define VF_PGM(K, E, ER, F)                                                                                            \
     VF_REGISTER(std::string("pgm/") + ::vf::KT<K>::name() + ",e" #E ",er" #ER "," #F "#small",                        \
-                (&::vf::pgm_case<K, E, ER, F, false>), 1.0);                                                           \
+                (&::vf::pgm_case<K, E, ER, F, 0>), 1.0);                                                           \
     VF_REGISTER(std::string("pgm/") + ::vf::KT<K>::name() + ",e" #E ",er" #ER "," #F "#chunk",                        \
-                (&::vf::pgm_case<K, E, ER, F, true>), 0.02)
+                (&::vf::pgm_case<K, E, ER, F, 1>), 0.02)
+#define VF_PGM_HUGE(K, E, ER, F)                                                                                       \
+    VF_REGISTER(std::string("pgm/") + ::vf::KT<K>::name() + ",e" #E ",er" #ER "," #F "#huge",                         \
+                (&::vf::pgm_case<K, E, ER, F, 2>), 0.0003)
 
 } // namespace vf
